@@ -4,6 +4,7 @@
 use crate::engine::Suite;
 
 pub mod c01;
+pub mod c03;
 pub mod c06;
 pub mod c08;
 pub mod c10;
@@ -22,6 +23,7 @@ pub struct Property {
 pub fn all() -> Vec<Property> {
     vec![
         Property { id: "C01", rule: c01::RULE, assumptions: c01::ASSUMPTIONS, suites: c01::suites() },
+        Property { id: "C03", rule: c03::RULE, assumptions: c03::ASSUMPTIONS, suites: c03::suites() },
         Property { id: "C06", rule: c06::RULE, assumptions: c06::ASSUMPTIONS, suites: c06::suites() },
         Property { id: "C08", rule: c08::RULE, assumptions: c08::ASSUMPTIONS, suites: c08::suites() },
         Property { id: "C10", rule: c10::RULE, assumptions: c10::ASSUMPTIONS, suites: c10::suites() },
